@@ -356,11 +356,11 @@ fn check_living(c: &HCase, obs: &mut Obs) -> Verdict {
 
 fn subs() -> Vec<Sub> {
     vec![
-        gen_sub("living_object", living, |t| t.pick(20_000, 400_000), check_living),
-        gen_sub("deep_nesting", deep, |t| t.pick(600, 12_000), check),
-        gen_sub("crowded_positions", crowded, |t| t.pick(4_000, 80_000), check),
-        gen_sub("large_maps", large, |t| t.pick(150, 3_000), check),
-        gen_sub("serialised", case_strategy, |t| t.pick(30_000, 600_000), check),
+        gen_sub("living_object", living, |t| t.pick(50_000, 400_000), check_living),
+        gen_sub("deep_nesting", deep, |t| t.pick(1_500, 12_000), check),
+        gen_sub("crowded_positions", crowded, |t| t.pick(12_000, 80_000), check),
+        gen_sub("large_maps", large, |t| t.pick(400, 3_000), check),
+        gen_sub("serialised", case_strategy, |t| t.pick(100_000, 600_000), check),
     ]
 }
 
